@@ -327,8 +327,9 @@ class TemplateInterpreter:
 				
 		try:
 			curValue = self.repeatVariable.getCurrentValue()
-		except IndexError as e:
-			# The iterator ran out of values before we started - treat as an empty list
+		except (IndexError, KeyError) as e:
+			# The iterator ran out of values before we started (or the value is
+			# a mapping, which has a length but no positions) - treat as an empty list
 			self.outputTag = 0
 			self.repeatVariable = None
 			self.programCounter = self.symbolTable [args[2]]
